@@ -143,3 +143,28 @@ Proof.
   cbn zeta. split; [intros sp tp []|]. split; [intros sp tp []|]. split; [intros e1 e2 []|].
   eexists. eexists. eexists. repeat split; vm_compute; reflexivity.
 Qed.
+
+(* ... and so for any two processing orders connected by a sequence of such swaps (every two topological orders of the
+   children are): the same compiled children as a multiset -- up to the listing of their stored inputs -- and a parameter
+   map holding the same value under every key *)
+Theorem C09_processing_orders_connected_by_swaps :
+  forall (D : Type) (ev : list (string * D) -> expr -> result D) (statusD : D -> D -> cstatus) (fvD : D -> list string),
+    (forall env env' e, (forall k, lookup k env = lookup k env') -> ev env e = ev env' e) ->
+    forall fuel conns names names',
+      reorder conns names names' ->
+      forall children pm acc pm1 kids,
+        compile_children (go ev statusD fvD fuel) names children conns pm acc = Ok (pm1, kids) ->
+        exists pm2 kids2, compile_children (go ev statusD fvD fuel) names' children conns pm acc = Ok (pm2, kids2)
+                          /\ pm_rel D pm1 pm2 /\ kids_equiv D kids kids2.
+Proof. exact go_children_reorder. Qed.
+Print Assumptions C09_processing_orders_connected_by_swaps.
+
+Example C09_reorder_nonvacuous : reorder [] ["a"; "b"; "c"] ["b"; "a"; "c"] /\ reorder [] ["a"; "b"; "c"] ["b"; "c"; "a"].
+Proof.
+  assert (N : forall x y, no_wire [] x y) by (intros x y sp tp []).
+  assert (T : forall x y, targets_apart [] x y) by (intros x y e1 e2 []).
+  split.
+  - apply (ro_swap [] [] "a" "b" ["c"]); [apply N|apply N|apply T].
+  - eapply ro_trans; [apply (ro_swap [] [] "a" "b" ["c"]); [apply N|apply N|apply T]|].
+    apply (ro_swap [] ["b"] "a" "c" []); [apply N|apply N|apply T].
+Qed.
